@@ -1,7 +1,7 @@
 #!/bin/bash
 # run the repository's baseline test command on each seeded worktree (sequentially), record the summary line and failing test ids
 for ID in "$@"; do
-  base=${ID%b}; base=${base%c}; base=${base%d}; base=${base%e}; WT=${WTPREFIX:-/tmp/wt_}$base
+  base=${ID%b}; base=${base%c}; base=${base%d}; base=${base%e}; base=${base%f}; WT=${WTPREFIX:-/tmp/wt_}$base
   (cd $WT && PYTHONPATH=$WT /venv/bin/python -m pytest -ra -q -p no:cacheprovider --timeout=900 --continue-on-collection-errors > /tmp/seedtests_$ID.log 2>&1)
   tail -1 /tmp/seedtests_$ID.log > /verif/seeded/$ID/fulltests.txt
   grep "^FAILED" /tmp/seedtests_$ID.log | sed 's/ - .*//' | sort >> /verif/seeded/$ID/fulltests.txt
